@@ -47,6 +47,10 @@ def zero_iteration(node: T) -> T | None:
     if not node.body:
         return None
 
+    if len(node.body) == 1 and isinstance(node.body[0], ast.Break):
+        # The loop already has zero iterations, the mutant would equal the original.
+        return None
+
     mutated_node = copy_node(node)
     mutated_node.body = [ast.Break(lineno=mutated_node.body[0].lineno)]
     return mutated_node
